@@ -336,6 +336,13 @@ class ValueSets:
                 for a in e.args:
                     acc = _vs_union(acc, self.eval(a))
                 return acc
+            if fn in ("min", "max") and len(e.args) == 1 and isinstance(e.args[0], (ast.GeneratorExp, ast.ListComp)) \
+                    and all(k.arg == "default" for k in e.keywords):
+                # max((<elt> for ...), default=<d>): one of the elements or the default
+                acc = self.eval(e.args[0].elt)
+                for k in e.keywords:
+                    acc = _vs_union(acc, self.eval(k.value))
+                return acc if e.keywords else acc
             if fn in self.trusted_calls:
                 return frozenset({0, 2})
             return TOP
